@@ -53,6 +53,16 @@ CHECKS = {
         note="one tiny circuit/witness/challenge instance per seed (2 circuits quick, 3 thorough); structural "
              "coefficient extraction validated by random evaluation; independence of masks is the standard argument",
         tech="symbolic execution of the real prover (symbolic SRS + symbolic blinders) + SMT (z3)"),
+    "C07": dict(
+        cat="other", ref="§5 C07",
+        text="Bounded solver verdict for the components whose witness generation does not decompose a witness into "
+             "bits: each runs in the real composer on symbolic witnesses / point coordinates with every symbolic "
+             "branch explored; all successful paths (per constant-parameter class) emit the identical shape with "
+             "selectors free of witness variables, and every panicking or shape-deviating path is shown infeasible "
+             "by z3 (deviating paths that are feasible are replayed on the real build).",
+        note="range/logic/truncate/decomposition/mul_point/mul_generator are outside (to_bits on the witness); "
+             "conditions on 252-step scalar multiplications are closed by the cited completeness of the Edwards law",
+        tech="symbolic execution of the real composer with path exploration + SMT feasibility queries (z3)"),
     "C08": dict(
         cat="other", ref="§5 C08",
         text="Bounded solver verdict: each component is executed by the real composer on symbolic witnesses and "
